@@ -277,6 +277,197 @@ theorem runs_binop (hnp : NoProgs env) {i : Instr} {f : Val → Val → Val}
   have g3 := ((go_binop hnp hi wl wr []).skip_app r).skip_app l
   exact ((g1.trans (g2.cast rfl (by omega) rfl)).trans (g3.cast rfl (by omega) rfl)).cast rfl rfl (by simp <;> omega)
 
+
+/-! ### `||` / `&&` chains -/
+
+/-- Value of `x` followed by the chain tail over operands with values `vs`: before each further operand
+    the accumulated value is tested; if the conditional jump fires the tested value is the result of the
+    whole chain (every jump goes to the end), otherwise the operator combines it with the next operand. -/
+def chainVal (wf : Bool) (f : Val → Val → Val) : Val → List Val → Val
+  | x, [] => x
+  | x, v :: vs => if jumps wf (vTest x) then vTest x else chainVal wf f (f (vTest x) v) vs
+
+theorem step_test (len pc : Nat) (s : St) :
+    step B rec top env len .test pc s = liftNext pc (unop rec vTest env s) := rfl
+
+/-- The chain tail: started with one entry on the stack it ends at its own end, whichever jump fires. -/
+theorem go_chainTail (hnp : NoProgs env) {wf : Bool} {opi : Instr} {f : Val → Val → Val}
+    (hi : ∀ len pc s, step B rec top env len opi pc s = liftNext pc (binop rec f env s))
+    (hf : ∀ a b, Plain (f a b))
+    (cvs : List (List Instr × Val)) (hcv : ∀ p ∈ cvs, Runs B rec top env p.1 p.2) :
+    ∀ w0 : Val, ∃ w' k, resolve env w' = chainVal wf f (resolve env w0) (cvs.map (·.2)) ∧
+      k ≤ (chainTail wf opi (cvs.map (·.1))).length ∧
+      Go B rec top env (chainTail wf opi (cvs.map (·.1))) k 0 [.val w0]
+        (chainTail wf opi (cvs.map (·.1))).length [.val w'] := by
+  induction cvs with
+  | nil => intro w0; exact ⟨w0, 0, rfl, by simp, by simpa [chainTail] using Go.refl [] 0 [.val w0]⟩
+  | cons p cvs ih =>
+    obtain ⟨c, v⟩ := p
+    intro w0
+    have ih' := ih (fun q hq => hcv q (List.mem_cons_of_mem _ hq))
+    obtain ⟨wc, kc, hwc, hkc, gc⟩ := hcv (c, v) (List.mem_cons_self ..)
+    dsimp only at hwc hkc gc
+    simp only [List.map_cons, chainTail]
+    generalize chainTail wf opi (cvs.map (·.1)) = T at ih' ⊢
+    have hcode : [Instr.test, .dup, .jmpCond wf (↑c.length + 1 + ↑T.length)] ++ c ++ [opi] ++ T =
+        .test :: .dup :: .jmpCond wf (↑c.length + 1 + ↑T.length) :: (c ++ opi :: T) := by simp
+    rw [hcode]
+    have ht := resolve_plain (env := env) (plain_vTest (resolve env w0))
+    generalize htdef : vTest (resolve env w0) = t at ht
+    have g1 := go_unop (B := B) (rec := rec) (top := top) hnp step_test w0 (.dup :: .jmpCond wf (↑c.length + 1 + ↑T.length) :: (c ++ opi :: T))
+    rw [htdef] at g1
+    have g2 := (go_dup (B := B) (rec := rec) (top := top) hnp t (.jmpCond wf (↑c.length + 1 + ↑T.length) :: (c ++ opi :: T))).skip_cons .test
+    rw [ht] at g2
+    have hv : BoolOrErr (resolve env t) := by rw [ht, ← htdef]; exact boolOrErr_vTest _
+    have g3 := ((((go_jmpCond (B := B) (rec := rec) (top := top) hnp (wf := wf) (d := ↑c.length + 1 + ↑T.length) (n := c.length + 1 + T.length)
+      (by omega) (r := c ++ opi :: T) (by simp <;> omega) t hv).skip_cons .dup).skip_cons .test).frame [.val t])
+    rw [ht] at g3
+    have g123 := (g1.trans g2).trans g3
+    by_cases hj : jumps wf t = true
+    · refine ⟨t, 3, ?_, by simp, ?_⟩
+      · simp [chainVal, htdef, hj, ht]
+      · rw [if_pos hj] at g123
+        exact g123.cast rfl rfl (by simp <;> omega)
+    · obtain ⟨w', k', hw', hk', gT⟩ := ih' (f t v)
+      rw [resolve_plain (hf _ _)] at hw'
+      refine ⟨w', 3 + kc + 1 + k', ?_, by simp <;> omega, ?_⟩
+      · simp [chainVal, htdef, hj, hw']
+      · rw [if_neg hj] at g123
+        have g4 := ((((gc.head_app (opi :: T)).skip_cons (.jmpCond wf (↑c.length + 1 + ↑T.length))).skip_cons
+          .dup).skip_cons .test).frame [.val t]
+        have g5 := ((((go_binop (B := B) (rec := rec) (top := top) hnp hi t wc T).skip_app c).skip_cons (.jmpCond wf (↑c.length + 1 + ↑T.length))).skip_cons
+          .dup).skip_cons .test
+        rw [ht, hwc] at g5
+        have g6 := (((((gT.skip_cons opi).skip_app c).skip_cons (.jmpCond wf (↑c.length + 1 + ↑T.length))).skip_cons
+          .dup).skip_cons .test)
+        exact (((g123.trans (g4.cast rfl (by omega) rfl)).trans (g5.cast rfl (by omega) rfl)).trans
+          (g6.cast rfl (by omega) rfl)).cast (by omega) rfl (by simp <;> omega)
+
+/-- `first; chainTail rest`: the code of an `||` (`wf = true`) / `&&` (`wf = false`) chain. -/
+theorem runs_chain (hnp : NoProgs env) {wf : Bool} {opi : Instr} {f : Val → Val → Val}
+    (hi : ∀ len pc s, step B rec top env len opi pc s = liftNext pc (binop rec f env s))
+    (hf : ∀ a b, Plain (f a b)) {first : List Instr} {v0 : Val} (h0 : Runs B rec top env first v0)
+    (cvs : List (List Instr × Val)) (hcv : ∀ p ∈ cvs, Runs B rec top env p.1 p.2) :
+    Runs B rec top env (first ++ chainTail wf opi (cvs.map (·.1))) (chainVal wf f v0 (cvs.map (·.2))) := by
+  obtain ⟨w0, k0, rfl, hk0, g0⟩ := h0
+  obtain ⟨w', k', hw', hk', gT⟩ := go_chainTail hnp (wf := wf) hi hf cvs hcv w0
+  refine ⟨w', k0 + k', hw', by simp <;> omega, ?_⟩
+  have g1 := g0.head_app (chainTail wf opi (cvs.map (·.1)))
+  have g2 := gT.skip_app first
+  exact (g1.trans (g2.cast rfl (by omega) rfl)).cast rfl rfl (by simp)
+
+
+/-! ### `?:` -/
+
+/-- A failing condition fails; otherwise the truthiness of the condition selects one branch. -/
+def ternVal (vc vt vf : Val) : Val :=
+  match vc with
+  | .err k => .err k
+  | _ => if truthy vc then vt else vf
+
+theorem vTest_cases (v : Val) :
+    (∃ k, v = .err k ∧ vTest v = .err k) ∨ ((∀ k, v ≠ .err k) ∧ vTest v = .bool (truthy v)) := by
+  cases v <;> simp [vTest]
+
+theorem ternVal_nonerr {v x y : Val} (h : ∀ k, v ≠ .err k) :
+    ternVal v x y = if truthy v then x else y := by
+  cases v <;> first | rfl | exact absurd rfl (h _)
+
+theorem step_not (len pc : Nat) (s : St) :
+    step B rec top env len .not pc s = liftNext pc (unop rec vNot env s) := rfl
+
+theorem runs_tern (hnp : NoProgs env) {c t f : List Instr} {vc vt vf : Val}
+    (hc : Runs B rec top env c vc) (ht : Runs B rec top env t vt) (hf : Runs B rec top env f vf) :
+    Runs B rec top env (ternCode c t f) (ternVal vc vt vf) := by
+  obtain ⟨wc, kc, rfl, hkc, gc⟩ := hc
+  obtain ⟨wt, kt, rfl, hkt, gt⟩ := ht
+  obtain ⟨wf, kf, rfl, hkf, gf⟩ := hf
+  suffices h : ∃ w' k, resolve env w' = ternVal (resolve env wc) (resolve env wt) (resolve env wf) ∧
+      k ≤ t.length + f.length + 9 ∧
+      Go B rec top env (.test :: .dup :: .jmpCond false (↑t.length + 2) :: .pop ::
+        (t ++ (.jmp (↑f.length + 4) :: .dup :: .not :: .jmpCond false (↑f.length + 1) :: .pop :: f)))
+        k 0 [.val wc] (t.length + f.length + 9) [.val w'] by
+    obtain ⟨w', k, hw', hk, g⟩ := h
+    have hcode : ternCode c t f = c ++ (.test :: .dup :: .jmpCond false (↑t.length + 2) :: .pop ::
+        (t ++ (.jmp (↑f.length + 4) :: .dup :: .not :: .jmpCond false (↑f.length + 1) :: .pop :: f))) := by
+      simp [ternCode]
+    rw [hcode]
+    refine ⟨w', kc + k, hw', by simp <;> omega, ?_⟩
+    exact ((gc.head_app _).trans ((g.skip_app c).cast rfl (by omega) rfl)).cast rfl rfl (by simp <;> omega)
+  generalize hd1 : ((↑t.length + 2 : Int)) = d1
+  generalize hd2 : ((↑f.length + 4 : Int)) = d2
+  generalize hd3 : ((↑f.length + 1 : Int)) = d3
+  have htc := resolve_plain (env := env) (plain_vTest (resolve env wc))
+  have hbe := boolOrErr_vTest (resolve env wc)
+  have hcases := vTest_cases (resolve env wc)
+  generalize htcdef : vTest (resolve env wc) = tc at htc hbe hcases
+  have lift3 : ∀ {r : List Instr} {k a b : Nat} {s0 s1 : List SVal}, Go B rec top env r k a s0 b s1 →
+      Go B rec top env (.test :: .dup :: .jmpCond false d1 :: r) k (a + 1 + 1 + 1) s0 (b + 1 + 1 + 1) s1 :=
+    fun g => (((g.skip_cons (.jmpCond false d1)).skip_cons .dup).skip_cons .test)
+  have lift4 : ∀ {r : List Instr} {k a b : Nat} {s0 s1 : List SVal}, Go B rec top env r k a s0 b s1 →
+      Go B rec top env (.test :: .dup :: .jmpCond false d1 :: .pop :: r) k (a + 1 + 1 + 1 + 1) s0 (b + 1 + 1 + 1 + 1) s1 :=
+    fun g => lift3 (g.skip_cons .pop)
+  -- TEST; DUP; JMPCOND
+  have g1 := go_unop (B := B) (rec := rec) (top := top) hnp step_test wc (.dup :: .jmpCond false d1 :: .pop :: (t ++ (.jmp d2 :: .dup :: .not :: .jmpCond false d3 :: .pop :: f)))
+  rw [htcdef] at g1
+  have g2 := (go_dup (B := B) (rec := rec) (top := top) hnp tc (.jmpCond false d1 :: .pop :: (t ++ (.jmp d2 :: .dup :: .not :: .jmpCond false d3 :: .pop :: f)))).skip_cons .test
+  rw [htc] at g2
+  have g3 := (((go_jmpCond (B := B) (rec := rec) (top := top) hnp (wf := false) (d := d1) (n := t.length + 2)
+    (by omega) (r := .pop :: (t ++ (.jmp d2 :: .dup :: .not :: .jmpCond false d3 :: .pop :: f)))
+    (by simp <;> omega) tc (by rw [htc]; exact hbe)).skip_cons .dup).skip_cons .test).frame [.val tc]
+  rw [htc] at g3
+  have g123 := (g1.trans g2).trans g3
+  -- the path taken when the condition is false or failing: DUP; NOT; JMPCOND
+  have hnt := resolve_plain (env := env) (plain_vNot tc)
+  have h4 := go_dup (B := B) (rec := rec) (top := top) hnp tc (.not :: .jmpCond false d3 :: .pop :: f)
+  rw [htc] at h4
+  have h5 := ((go_unop (B := B) (rec := rec) (top := top) hnp step_not tc (.jmpCond false d3 :: .pop :: f)).skip_cons .dup).frame [.val tc]
+  rw [htc] at h5
+  have h6 := (((go_jmpCond (B := B) (rec := rec) (top := top) hnp (wf := false) (d := d3) (n := f.length + 1)
+    (by omega) (r := .pop :: f) (by simp) (vNot tc) (by rw [hnt]; exact boolOrErr_vNot _)).skip_cons .not).skip_cons
+    .dup).frame [.val tc]
+  rw [hnt] at h6
+  have h456 := (h4.trans h5).trans h6
+  have liftD : ∀ {k a b : Nat} {s0 s1 : List SVal}, Go B rec top env (.dup :: .not :: .jmpCond false d3 :: .pop :: f) k a s0 b s1 →
+      Go B rec top env (.test :: .dup :: .jmpCond false d1 :: .pop :: (t ++ (.jmp d2 :: .dup :: .not :: .jmpCond false d3 :: .pop :: f))) k
+        (t.length + (a + 1) + 1 + 1 + 1 + 1) s0 (t.length + (b + 1) + 1 + 1 + 1 + 1) s1 :=
+    fun g => lift4 ((g.skip_cons (.jmp d2)).skip_app t)
+  rcases hcases with ⟨e, hve, hte⟩ | ⟨hne, htb⟩
+  · -- failing condition
+    subst hte
+    have hj : jumps false (Val.err e) = true := rfl
+    rw [if_pos hj] at g123
+    have hj' : jumps false (vNot (Val.err e)) = true := rfl
+    rw [if_pos hj'] at h456
+    refine ⟨.err e, 3 + 3, ?_, by omega, ?_⟩
+    · rw [hve]; rfl
+    · exact (g123.trans ((liftD h456).cast rfl (by omega) rfl)).cast (by omega) rfl (by omega)
+  · rw [ternVal_nonerr hne]
+    subst htb
+    cases htr : truthy (resolve env wc)
+    · -- falsy condition: the else branch
+      rw [htr] at g123 h456
+      have hj : jumps false (Val.bool false) = true := rfl
+      rw [if_pos hj] at g123
+      have hj' : jumps false (vNot (Val.bool false)) = false := rfl
+      rw [hj'] at h456
+      have h7 := (((go_pop (B := B) (rec := rec) (top := top) hnp (.bool false) f).skip_cons (.jmpCond false d3)).skip_cons .not).skip_cons .dup
+      have h8 := ((((gf.skip_cons .pop).skip_cons (.jmpCond false d3)).skip_cons .not).skip_cons .dup)
+      have hD := (h456.trans (h7.cast rfl (by simp) rfl)).trans (h8.cast rfl (by omega) rfl)
+      refine ⟨wf, 3 + (3 + 1 + kf), by simp, by omega, ?_⟩
+      exact (g123.trans ((liftD hD).cast rfl (by omega) rfl)).cast (by omega) rfl (by omega)
+    · -- truthy condition: the then branch
+      rw [htr] at g123
+      have hj : jumps false (Val.bool true) = false := rfl
+      rw [hj] at g123
+      have p4 := lift3 (go_pop (B := B) (rec := rec) (top := top) hnp (.bool true) (t ++ (.jmp d2 :: .dup :: .not :: .jmpCond false d3 :: .pop :: f)))
+      have p5 := lift4 (gt.head_app (.jmp d2 :: .dup :: .not :: .jmpCond false d3 :: .pop :: f))
+      have p6 := (lift4 ((go_jmp (B := B) (rec := rec) (top := top) (env := env) (d := d2) (n := f.length + 4) (by omega)
+        (r := (.dup :: .not :: .jmpCond false d3 :: .pop :: f)) (by simp)).skip_app t)).frame [.val wt]
+      refine ⟨wt, 3 + 1 + kt + 1, by simp, by omega, ?_⟩
+      exact (((g123.trans (p4.cast rfl (by simp) rfl)).trans (p5.cast rfl (by omega) rfl)).trans
+        (p6.cast rfl (by omega) rfl)).cast (by omega) rfl (by omega)
+
 end
 
 end Seq
